@@ -150,6 +150,13 @@ func (ex *Exec) intrinsic(fn *ssa.Function, args []Value) (Value, bool) {
 		// terminal restore and message printing on the real stdout: outside every claim
 		ex.stubsUsed[name]++
 		return nil, true
+	case "github.com/trzsz/trzsz-go/trzsz.syscallAccessRok":
+		ex.stubsUsed[name]++
+		return Iface{}, true
+	case "github.com/trzsz/trzsz-go/trzsz.syscallAccessWok":
+		// access(2) W_OK on the destination directory: the stub FS has no permissions
+		ex.stubsUsed[name]++
+		return Iface{}, true
 	case "github.com/trzsz/trzsz-go/trzsz.writeToClipboard":
 		ex.stubsUsed[name]++
 		return nil, true
